@@ -268,3 +268,25 @@ def _kname(k):
     if isinstance(k, tuple):
         return '+'.join(getattr(m, 'name', repr(m)) for m in k)
     return getattr(k, 'name', repr(k))
+
+
+def one_definition_per_name(cat, rep, rule='R17.4u'):
+    """every input and every line name is declared once per form instance: two definitions under one name are both
+    evaluated and the later one overwrites the stored value of the earlier (premise of C03 and C05 as well)"""
+    n = 0
+    for y in cat.years:
+        for fr in cat.forms(y):
+            if fr.rec is None:
+                continue
+            for kind, recs in (('i', fr.inputs), ('v', fr.fields)):
+                seen = {}
+                for r in recs:
+                    nm = getattr(r, 'attrs', {}).get('_name') if hasattr(r, 'attrs') else None
+                    if not isinstance(nm, str):
+                        continue
+                    n += 1
+                    lk = nm.lower()
+                    rep.ob(rule, f'{y}/{fr.name}/{kind}:{nm}/unique', lk not in seen,
+                           f'{"input" if kind == "i" else "line"} {nm!r} is declared twice in {fr.name} (first at {seen.get(lk)}): both definitions are evaluated and the later overwrites the earlier', r.where)
+                    seen.setdefault(lk, r.where)
+    return n
